@@ -269,3 +269,8 @@ def finalize(ctx):
         ctx.inconc("no read request was logged")
     if ctx.counters.get("values_compared", 0) == 0:
         ctx.inconc("no value comparison happened")
+
+
+RULE += (
+    ' Lazy-handle stores (the read is logged when the handle is converted, with the lock state of that moment), a custom getitem that decodes what the store holds, inline_array together with a lock.'
+)
